@@ -57,6 +57,7 @@ func genC09(ctx *fw.Ctx) []fw.Case {
 		w := w
 		cases = append(cases, fw.Case{ID: fmt.Sprintf("positions/i%d", w), Run: func(r *fw.Rec) { c09Positions(r, w) }})
 	}
+	cases = append(cases, fw.Case{ID: "storage/constants-own-their-value", Run: c09OwnStorage})
 	return cases
 }
 
@@ -611,4 +612,107 @@ func c09MixedWidths(r *fw.Rec, reverse bool) {
 	}
 	judgeLits(r, fmt.Sprintf("mixed-widths-reverse=%v", reverse), lits)
 	r.NontrivialN("mixed-widths", len(lits))
+}
+
+// c09OwnStorage: every integer constant a parse returns owns its value. The
+// same literal written many times (one-digit decimals, 0 and -1, the same wide
+// hexadecimal literal, at several widths) gives constants whose X are distinct
+// objects; adding one to the X of one constant leaves every other constant, and
+// the reading of the same literal in a later parse, as it was.
+func c09OwnStorage(r *fw.Rec) {
+	lits := []string{"0", "1", "7", "9", "-1", "10", "255", "u0xFF", "s0xFFFFFFFFFFFFFFFF", "s0xFFFFFFFFFFFFFFFE", "18446744073709551616", "u0x10000000000000000", "true"}
+	widths := []int{8, 32, 64, 65, 128}
+	var sb strings.Builder
+	type ent struct {
+		lit string
+		w   int
+	}
+	var ents []ent
+	for rep := 0; rep < 2; rep++ {
+		for _, w := range widths {
+			for _, l := range lits {
+				if l == "true" {
+					if w != 8 {
+						continue
+					}
+					fmt.Fprintf(&sb, "@g%d = global i1 true\n", len(ents))
+					ents = append(ents, ent{l, 1})
+					continue
+				}
+				if (strings.HasPrefix(l, "s0xFFFFFFFFFFFFFFF") && w < 64) || (strings.Contains(l, "10000000000000000") || l == "18446744073709551616") && w <= 64 {
+					continue
+				}
+				fmt.Fprintf(&sb, "@g%d = global [2 x i%d] [i%d %s, i%d %s]\n", len(ents), w, w, l, w, l)
+				ents = append(ents, ent{l, w})
+			}
+		}
+	}
+	x := sb.String()
+	collect := func(m *ir.Module) []*constant.Int {
+		var out []*constant.Int
+		for _, g := range m.Globals {
+			switch c := g.Init.(type) {
+			case *constant.Int:
+				out = append(out, c)
+			case *constant.Array:
+				for _, e := range c.Elems {
+					if ci, ok := e.(*constant.Int); ok {
+						out = append(out, ci)
+					}
+				}
+			}
+		}
+		return out
+	}
+	m, perr, pmsg := parseGuard("c09-storage", x)
+	if pmsg != "" || perr != nil {
+		r.Inconclusive("cannot parse the storage module")
+		return
+	}
+	before, _ := printGuard(m)
+	cs := collect(m)
+	seen := map[*big.Int]int{}
+	for i, c := range cs {
+		r.Eval(1)
+		if c.Typ.BitSize == 1 {
+			continue // true/false are the documented shared constants
+		}
+		if j, ok := seen[c.X]; ok {
+			r.Violate(fw.Violation{Key: "storage/shared-value-object", Input: x, What: fmt.Sprintf("two integer constants of one parse (%s and %s) hold the same *big.Int: editing one edits the other", cs[j], c)})
+			return
+		}
+		seen[c.X] = i
+	}
+	// edit every constant in turn, on a fresh parse each time
+	for k := range cs {
+		if cs[k].Typ.BitSize == 1 {
+			continue
+		}
+		r.Eval(1)
+		mk, _, _ := parseGuard("c09-storage", x)
+		if mk == nil {
+			return
+		}
+		ck := collect(mk)
+		ck[k].X.Add(ck[k].X, big.NewInt(1))
+		after, _ := printGuard(mk)
+		bl, al := strings.Split(before, "\n"), strings.Split(after, "\n")
+		changed := 0
+		for i := range bl {
+			if i < len(al) && bl[i] != al[i] {
+				changed++
+			}
+		}
+		if changed != 1 || len(al) != len(bl) {
+			r.Violate(fw.Violation{Key: "storage/edit-leaks", Input: x, What: fmt.Sprintf("after adding 1 to the value of one constant (%s, constant %d) %d lines of the module changed, expected exactly one", ck[k], k, changed), Expected: before, Observed: after})
+			return
+		}
+		m3, _, _ := parseGuard("c09-storage", x)
+		if t3, _ := printGuard(m3); t3 != before {
+			r.Violate(fw.Violation{Key: "storage/edit-leaks-into-later-parse", Input: x, What: "after editing one constant of one module in place, the same text parsed again reads its literals differently: " + firstDiffLines(before, t3)})
+			return
+		}
+	}
+	r.NontrivialN("storage", len(cs))
+	r.TallyN("storage", "constants-own-their-value", len(cs))
 }
